@@ -30,11 +30,12 @@ NSHARDS = 8
 GUARDS = [("escape_forgets_bar", "L_Escape"), ("unique_ignores_qmark", "L_Unique"), ("lit_no_backtrack", "L_Concat"),
           ("unescape_drops_escaped", "L_RoundTrip"), ("uvlist_allows_star", "L_UVList"), ("star_needs_one", "L_Atoms"),
           ("alt_first_only", "L_Alt"), ("group_first_only", "L_Group"), ("class_neg_ignored", "L_Class"),
-          ("range_hi_exclusive", "L_Range"), ("neg_ignored_for_ranges", "L_Neg")]
-LAWS = ["L_Escape", "L_RoundTrip", "L_Unique", "L_UVList", "L_Atoms", "L_Concat", "L_Alt", "L_Group", "L_Neg", "L_Class", "L_Range"]
+          ("range_hi_exclusive", "L_Range"), ("neg_ignored_for_ranges", "L_Neg"), ("seg_star_skips_count", "L_SegCount")]
+LAWS = ["L_Escape", "L_RoundTrip", "L_Unique", "L_UVList", "L_Atoms", "L_Concat", "L_Alt", "L_Group", "L_Neg", "L_Class", "L_Range", "L_SegOne", "L_SegCount", "L_SegStar", "L_SegCompose", "L_SegPrefix", "L_SegNeg"]
 FIELD = {"m": "Match()", "st": "SetPattern() status", "u": "IsPatternUnique()", "v": "IsPatternListOfUniqueValues()", "c": "CanWildcardStringMatchMultipleValues()",
          "h": "HasRegexTokens()", "r": "RemoveEscapeChars()", "e": "EscapeRegexTokens()", "es": "StringMatcher(EscapeRegexTokens(s)) matches s and nothing else",
-         "ru": "a recycled StringMatcher answers like a new one", "cp": "a copied StringMatcher answers like the original"}
+         "m0": "SegmentedStringMatcher::Match(s, false)", "m1": "SegmentedStringMatcher::Match(s, true)",
+         "ru": "a recycled matcher answers like a new one", "cp": "a copied StringMatcher answers like the original"}
 
 
 def S(codes):
@@ -95,6 +96,20 @@ def run(v, tier, seed):
         for k in ("patterns", "match_calls", "matched", "setpattern_errors", "unique", "uvlist"): summ[k] = sum(p[k] for p in parts)
         for k in ("lines_per_shard", "patterns_by_length"): summ[k] = [sum(x) for x in zip(*[p[k] for p in parts])]
         if summ["patterns"] != summ["strings_enumerated"]: raise vlib.MachineryError("harness shards recorded %d of %d strings" % (summ["patterns"], summ["strings_enumerated"]))
+        if tag in ("q", "t4"):
+            # SegmentedStringMatcher lines: recorded by one more harness run and merged into the same shard files (same TLC processes)
+            rep = W("rep_%s_seg.ndjson" % tag)
+            rc, out, err = vlib.run([wc, "seg", "1" if tier == "quick" else "2", str(NSHARDS), prefix, rep], timeout=1200)
+            if rc != 0: raise vlib.MachineryError("wc seg failed rc=%s: %s %s" % (rc, out[-500:], err[-1500:]))
+            summ.update([r for r in vlib.read_ndjson(rep) if r.get("summary")][0]); os.remove(rep)
+            hdr = json.load(open(prefix + ".seg.hdr.json")); os.remove(prefix + ".seg.hdr.json")
+            for k in range(NSHARDS):
+                pth = "%s.%d.ndjson" % (prefix, k); seg = "%s.seg.%d.ndjson" % (prefix, k)
+                with open(pth) as f: first = json.loads(f.readline()); rest = f.read()
+                first["segsubjects"] = hdr["segsubjects"]
+                with open(pth, "w") as f:
+                    f.write(json.dumps(first, separators=(",", ":")) + "\n"); f.write(rest); f.write(open(seg).read())
+                os.remove(seg)
         return prefix, summ
 
     def validate(path, timeout=2400):
@@ -161,7 +176,7 @@ def run(v, tier, seed):
     # ---------------------------------------------------------------- run
     if tier == "quick":
         plans = [("q", 3, 4, 50000, 2000, 8, 3, 1)]
-        law_args = (3, 2, 2, 3); guards = GUARDS[:3]
+        law_args = (3, 2, 2, 3); guards = GUARDS[:3] + GUARDS[-1:]
     else:
         plans = [("t4", 4, 0, 0, 0, 0, 4, 1), ("t5", 0, 5, int(os.environ.get("C15_SAMPLE5", "1200000")), 40000, 10, 3, 0)]
         law_args = (4, 3, 2, 8); guards = GUARDS
@@ -187,7 +202,7 @@ def run(v, tier, seed):
                 if summ["subjects"] != hs["subjects"]: raise vlib.MachineryError("subject universe mismatch")
                 for x in bad:
                     pat = S(x["p"]); fields = sorted(x["unexcused"] or x["bad"])
-                    what = "pattern %r disagrees with the documented syntax on: %s" % (pat, "; ".join(FIELD[f] for f in fields))
+                    what = "%spattern %r disagrees with the documented syntax on: %s" % ("segmented " if x.get("k") == "s" else "", pat, "; ".join(FIELD[f] for f in fields))
                     excused = sorted(set(x["bad"]) - set(x["unexcused"]))
                     if x["tag"] and excused:      # the directed case of an open finding reproduces
                         reproduced[x["tag"]] = "pattern %r disagrees with the documented syntax on: %s" % (pat, "; ".join(FIELD[f] for f in excused))
@@ -199,7 +214,10 @@ def run(v, tier, seed):
                     elif not x["tag"]:
                         raise vlib.MachineryError("a disagreement inside a known-finding predicate was evaluated for an untagged line: %s" % x)
             if tier == "quick" or pi == 0:
-                rr = vlib.read_ndjson(paths[1])[1:]
+                allr = vlib.read_ndjson(paths[1])[1:]
+                rr = [r for r in allr if r["k"] == "p"]; sg = [r for r in allr if r["k"] == "s"]
+                samples += [{"segmented_pattern": S(r["p"]), "hard_separator": r["hard"], "unique": r["u"], "subjects_matched_exact" if not r["ng0"] else "subjects_not_matched_exact": len(r["m0"]),
+                             "subjects_matched_prefix_ok" if not r["ng1"] else "subjects_not_matched_prefix_ok": len(r["m1"])} for r in sg[40:42]]
                 samples += [{"pattern": S(r["p"]), "SetPattern_ok": r["st"], "subjects_matched" if not r["ng"] else "subjects_not_matched": len(r["m"]), "unique": r["u"], "uvlist": r["v"],
                              "can_match_multiple": r["c"], "escape": S(r["e"]), "unescape": S(r["r"])} for r in rr[1:4] + rr[-3:]]
             for p in paths: os.remove(p)
@@ -213,7 +231,7 @@ def run(v, tier, seed):
             for k, n in r.printed[0].items(): law_hits[k] = law_hits.get(k, 0) + n
             law_runs.append({"distinct": r.distinct, "wall_s": round(r.wall, 1)})
         zero = [k for k, n in law_hits.items() if n == 0]
-        if zero or len(law_hits) != 10: raise vlib.MachineryError("vacuity guard: antecedent of a law never true: %s (%s)" % (zero, law_hits))
+        if zero or len(law_hits) != 14: raise vlib.MachineryError("vacuity guard: antecedent of a law never true: %s (%s)" % (zero, law_hits))
         guards_ok = [f.result() for f in f_guard]
         try:
             ncorr, nother = f_corr.result()
@@ -246,7 +264,9 @@ def run(v, tier, seed):
                    % (plans[0][1], ", a seeded sample of length %d, seeded grammar-directed patterns up to length %d" % ((plans[0][2], plans[0][5]) if tier == "quick" else (plans[1][2], plans[1][5])), harness[0]["subjects"], plans[0][6]),
            "exhaustive": True, "harness_runs": harness, "tlc_shard_wall_s": tlc_wall,
            "oracle_law_antecedent_hits": law_hits, "oracle_law_runs": law_runs, "wrong_oracle_variants_rejected": guards_ok, "corrupted_records_rejected": ncorr,
-           "deviations_not_judged": deviations, "samples": samples[:6]}
+           "segmented_lines_recorded": sum(h.get("seg_lines", 0) for h in harness), "segmented_subjects": max(h.get("seg_subjects", 0) for h in harness),
+           "segmented_real_Match_calls": sum(h.get("seg_match_calls", 0) for h in harness),
+           "deviations_not_judged": deviations, "samples": samples[:8]}
     assumptions = ["pattern alphabet {a b 1 2 * ? [ ] - ( | ) , ~ < > \\ . + ^ `}, subject alphabet {a b 1 2 , * \\ .}: behaviour that depends on other bytes (upper case, UTF-8, $ { } =, ':' classes) is out of scope",
                    "the oracle is three-valued; not judged (documentation silent or self-contradictory): the empty pattern, raw-regex (backtick) patterns, empty alternatives, unbalanced [ ] ( ), trailing backslash, "
                    "backslash or [ inside a class, reversed ranges, unescaped ^ outside a class, a leading < that is not a well-formed range list; for <..> patterns only canonical decimal subjects < 2^32 and non-numeric subjects are definite",
